@@ -21,6 +21,9 @@ TEXTS = ['hello', 'a, b', 'x (y) [z]', 'wl_surface@3', 'nil', '12', 'fd 3', 'new
          'Report  -  draft', 'two  blanks', 'tabs\t\tx']      # runs of white space inside a text are part of it
 CHATTER = ['\x1b[1;31mERROR\x1b[0m: no cursor theme', 'plain \x1b[0m reset', 'hello world', '', 'using wayland', '[debug] frame 12', 'wl_surface@3.commit', '[123.456] not a message',
            '(EE) failed', 'a -> b', '[  12.345] wl_x@1.y(', 'éè unicode', 'x' * 200, '[]', '()',
+           # what libwayland itself prints besides messages (a fatal protocol error), and lines that look like diagnostics
+           'wl_surface@4: error 2: buffer size is not divisible by scale', 'wl_display@1: error 1: invalid arguments for wl_surface@4.attach',
+           'error: something failed', 'Error: not from us', 'Warning: neither is this', 'Traceback (most recent call last):',
            # characters that str.splitlines() takes for line ends but a file does not: form feed, vertical tab, FS, NEL, U+2028
            'page 1 of the report\x0cpage 2', 'v\x0btab', 'fs\x1cgs\x1drs\x1e.', 'nel\x85next', 'line\u2028separator\u2029.']
 GAPS = [0, 1, 7, 49, 50, 51, 99, 100, 101, 500, 4999, 5000, 999949, 999950, 999962, 999999, 1000000, 1000001, 2500000, 123456]
